@@ -133,6 +133,8 @@ def combine(a, b):
     kws = [k for k, _ in a["kw"]] + [k for k, _ in b["kw"]]
     if len(set(kws)) != len(kws):
         return None                                   # two style= keywords
+    if (a["func"] or b["func"]) and "style" in kws:
+        return None                                   # the call's style= replaces the helper's own (functools.partial)
     return dict(pos=a["pos"] + b["pos"], kw=a["kw"] + b["kw"], func=a["func"] or b["func"],
                 named=dict(a["named"], **b["named"]), sp=a["sp"] + "&" + b["sp"])
 
@@ -319,7 +321,7 @@ def line(c):
     if op == "shared":
         return "shared %s" % wire.enc_chunks(c["f"])
     if op == "cwna":
-        return "cwna %s %s" % (wire.enc_chunks(c["f"]), wire.enc_atts(c["atts"]) or "e")
+        return "cwnatts %s %s" % (wire.enc_chunks(c["f"]), wire.enc_atts(c["atts"]) or "e")
     if op == "nwar":
         return " ".join(["nwar", wire.enc_chunks(c["f"])] + c["names"])
     if op == "cwns":
